@@ -1628,8 +1628,17 @@ def out_paths():
 def generate(ctx=None, repo=None, out=None, sidecar=None):
     repo = repo or (common.REPO if common else os.environ.get("VERIF_REPO", "/repo"))
     o, s = out_paths()
-    A = analyze(repo)
-    res = emit(A, out or o, sidecar or s)
+    try:
+        A = analyze(repo)
+        res = emit(A, out or o, sidecar or s)
+    except (TranslatorError, SyntaxError, RecursionError) as e:
+        if ctx is None:
+            raise
+        # fail-closed: the facts could not be regenerated from the current source, so the theorems (which would
+        # be re-checked against STALE facts) do not count: the proof obligation is broken
+        msg = "translator failed closed, facts NOT regenerated from the current source: %s" % (e,)
+        ctx.violation("proof", msg, case={}, failing_input=False, broken=msg[:200])
+        return None, None
     if ctx is not None:
         ctx.notes.append("translator: %s" % json.dumps(dict(A.stats, nodes=len(A.nodes), edges=len(res["edges"]),
                                                            effs=len(res["effs"]))))
